@@ -11,7 +11,7 @@ run_part() {
     id=$(basename $d); P=${id:0:3}
     ok=$(python3 -c "import json;print(json.load(open('$d/meta.json'))['confirmed'])" 2>/dev/null)
     [ "$ok" = "True" ] || continue
-    R=$(TIER=quick LINES_MAX=60 tools/try_mutant.sh $d/patch.diff -- $P 2>&1)
+    R=$(TIER=quick LINES_MAX=60 tools/try_mutant.sh /verif/$d/patch.diff -- $P 2>&1)
     V=$(echo "$R" | grep -c "^VIOLATION")
     K=$(echo "$R" | grep "key :" | head -3 | sed 's/  key : //' | tr '\n' ' ')
     I=$(echo "$R" | grep -c "INCONCLUSIVE")
